@@ -84,6 +84,23 @@ def run_items(items, jobs):
     hard = budget + 90
     pending = list(items)
     running = []          # (process, conn, item, t0)
+    try:
+        yield from _run_items_loop(ctx, pending, running, jobs, hard, _t)
+    finally:
+        # the consumer stopped early (self-test: the seeded change is already detected) or an error occurred: no orphans
+        for pr, conn, it, t0 in running:
+            try:
+                if pr.is_alive():
+                    pr.terminate()
+                    pr.join(2)
+                    if pr.is_alive():
+                        pr.kill()
+                conn.close()
+            except Exception:
+                pass
+
+
+def _run_items_loop(ctx, pending, running, jobs, hard, _t):
     while pending or running:
         while pending and len(running) < max(1, jobs):
             it = pending.pop(0)
@@ -124,7 +141,7 @@ def run_items(items, jobs):
                        'obligations': [], 'paths': 0, 'wall_s': 0, 'queries': 0, 'solver_s': 0, 'notes': []}
             else:
                 still.append((pr, conn, it, t0))
-        running = still
+        running[:] = still
         if not progressed:
             _t.sleep(0.02)
 
@@ -206,6 +223,11 @@ def main(argv=None):
                 continue
             items.append((prop, s.name, params, repo))
     results = []
+    # per-instance wall budget: generous in the thorough tier so that a verdict does not flip to UNDECIDED when all cores are busy
+    # (the largest thorough instance needs ~12 min on an idle machine); the self-test on seeded changes keeps the short budget
+    user_budget = os.environ.get('TTVC_INSTANCE_BUDGET_S')
+    if user_budget is None:
+        os.environ['TTVC_INSTANCE_BUDGET_S'] = '900' if args.tier == 'quick' else '3600'
     if items:
         if args.jobs > 1 and len(items) > 1:
             for r in run_items(items, min(args.jobs, len(items))):
@@ -447,8 +469,18 @@ def run_selftest(prop, scens, repo, jobs, mod, seed):
                     items.append((prop, s_.name, params, tmp))
             res = []
             if items:
-                for r in run_items(items, min(jobs, len(items))):
-                    res.append(r)
+                saved_budget = os.environ.get('TTVC_INSTANCE_BUDGET_S')
+                os.environ['TTVC_INSTANCE_BUDGET_S'] = os.environ.get('TTVC_SELFTEST_BUDGET_S', '600')
+                try:
+                    for r in run_items(items, min(jobs, len(items))):
+                        res.append(r)
+                        if any(o['status'] == 'failed' for o in r['obligations']):
+                            break          # detected: the remaining instances of this seeded change are not needed
+                finally:
+                    if saved_budget is None:
+                        os.environ.pop('TTVC_INSTANCE_BUDGET_S', None)
+                    else:
+                        os.environ['TTVC_INSTANCE_BUDGET_S'] = saved_budget
             failed = [('%s[%s].%s' % (r['scenario'], pstr(r['params']), o['name'])) for r in res for o in r['obligations'] if o['status'] == 'failed']
             bfail = 0
             if hasattr(mod, 'bounded_checks'):
